@@ -14,7 +14,8 @@ class P(DockProp):
             "match only a proper prefix (anchoring), `.*` / `.+` on absent labels; log queries and one range aggregation per case; time ranges with fractional seconds on either "
             "bound, instant queries (30 s look-back). The generator computes from its own reading of LogQL which containers are selected and which since/until each must receive; "
             "demanded on the observed run: exactly those containers are asked for logs, with exactly those options; every returned line (lines are tagged with their container id) "
-            "sits in a stream carrying the labels of that container; everything equals the faithful model.")
+            "sits in a stream carrying the labels of that container; everything equals the faithful model. One case in twelve starts the last container between the two selections "
+            "of one query (the fake daemon's first listing does not show it): the second selection must see it.")
 
     def gen(self, rng, tier):
         n = {"quick": 200, "thorough": 2500, "search": 800}[tier]
@@ -22,7 +23,27 @@ class P(DockProp):
         m = mgen_for(rng)
         return [self.one(rng, g, m, i) for i in range(n)]
 
+    def late_case(self, rng, g, m, i):
+        """the inventory is listed anew for every selection: a container that starts between the two selections of one query is seen by the second"""
+        nc = rng.randint(2, 4)
+        ctrs = [Ctr(rng, k) for k in range(nc)]
+        start, end = T0, T0 + 5 * S
+        for c in ctrs:
+            c.set_records(rng, rng.randint(1, 4), T0 + S, 3 * S)
+        eq = lambda c: {"l": "container_id", "op": "=", "v": c.id, "coq": "em %s %s" % (cbytes(b"container_id"), egen.sm_coq("=", c.id)),
+                        "pred": lambda view, c=c: view.get(b"container_id", b"") == c.id.encode()}
+        first, last = ctrs[rng.randrange(nc - 1)], ctrs[-1]
+        drop = [m.g.st_dropkeep("drop", ["msg"], [])]
+        e = m.mbin(rng.choice(["or", "or", "+", "unless"]), m.mrange("count_over_time", [eq(first)], drop, 10 * S), m.mrange("count_over_time", [eq(last)], drop, 10 * S))
+        evals = [{"q": b64e(m.text(e)), "qcoq": "DQMetric (%s)" % e["coq"], "limit": 0, "start": end, "end": end, "step": 0, "release": [],
+                  "exp_selected": [first.id, last.id], "exp_opts": {}, "must_err": False, "must_ok": True}]
+        return {"kind": "late-container", "ctrs": [c.json() for c in ctrs], "ctrs_coq": clist(c.coq() for c in ctrs), "ctrs_intended_coq": clist(c.coq(False) for c in ctrs),
+                "list_fail": False, "late_last": True, "oracle": oracles_coq(), "evals": evals, "same": [], "faults": [],
+                "summary": ["%s names=%s labels=%s" % (c.id, c.names, c.labels) for c in ctrs], "note": "the last container is not in the first listing"}
+
     def one(self, rng, g, m, i):
+        if i % 12 == 11:
+            return self.late_case(rng, g, m, i)
         nc = rng.randint(1, 6)
         ctrs = [Ctr(rng, k) for k in range(nc)]
         start = T0 + rng.choice([0, 0, 600_000_000, 123_456_789, 999_999_999, 500_000_000])
